@@ -34,6 +34,10 @@ CLAIMED.update({
             "validate_funds's five rejection atoms cannot reach Ok and its success dominates the bond writes; one declared amount feeds "
             "BOND, GLOBAL.bonded_amount, bonded_assets and the UNBOND record; unbond reachable iff bonded >= amount; a block-time-keyed "
             "UNBOND save must merge; withdraw releases exactly matured records, add and remove together, payout to the caller.", "§4 C08"),
+    "C11": ("guard dominance + closure-resolved provenance + variant-sliced reachability + forward message flow",
+            "validate_funds_sent success dominates position writes and its validated amount is the recorded amount; the helper's Ok return "
+            "is reachable only through paid==amount (native) or an attached TransferFrom(sender->contract, amount) with allowance>=amount (cw20); "
+            "close moves the open amount atomically; withdraw adds/removes together and pays the caller; frontend helper pairs transfers and forwards the whole LP balance.", "§4 C11"),
     "C12": ("configuration-sliced CFG reachability (correlated enum branches) + forward message flow + refund provenance",
             "In every (fee asset, flow asset, same?) configuration every path to FLOWS.save crosses a funding tie "
             "(funds comparison or attached TransferFrom of the flow amount); every message built is attached; close_flow refunds "
